@@ -7,9 +7,12 @@ import TdVerif.Props.C05
 namespace TdVerif.C06
 open TdVerif.C05
 
-/-- the nodes an event may restructure -/
-def mutated : Ev → List Nat
+/-- the nodes an event may restructure (a nested key leads to the node it names) -/
+def mutated (h : Heap) : Ev → List Nat
   | .mut i m => if m.eff.isWrite then [] else [i]
+  | .mutPath i path m => match walk h i path with
+    | some t => if m.eff.isWrite then [] else [t]
+    | none => []
   | _ => []
 
 def notMemmap : Ev → Bool
@@ -87,7 +90,7 @@ theorem facts_mutEv {h : Heap} (hinv : Inv h) (i : Nat) (m : Mut)
 /-- every event of the lock machine (memmap_ apart, which rebinds every leaf) -/
 theorem facts_stepLive (s : State) (hinv : Inv s.heap) (e : Ev) (hok : Props.C05.EvOk e) (hnm : notMemmap e = true)
     (ht : ∀ i, e.target = some i → live s.heap i = true ∧ i < s.heap.size) :
-    StepFacts s.heap (stepLive s e).1.heap (erasedBy s e) (mutated e) := by
+    StepFacts s.heap (stepLive s e).1.heap (erasedBy s e) (mutated s.heap e) := by
   cases e with
   | lock i => exact facts_of_le (lockEv_le _ i) (lockEv_struct _ i) _ _
   | unlock i =>
@@ -123,6 +126,15 @@ theorem facts_stepLive (s : State) (hinv : Inv s.heap) (e : Ev) (hok : Props.C05
       rw [this]; exact facts_gc _ i _
   | «mut» i m =>
     exact facts_mutEv hinv i m (by simpa [Props.C05.EvOk, Props.C05.evOkB] using hok) _
+  | mutPath i path m =>
+    have he : erasedBy s (.mutPath i path m) = [] := by simp [erasedBy, unlockTarget]
+    rw [he]
+    simp only [stepLive, mutPathEv, mutated]
+    cases hw : walk s.heap i path with
+    | some t =>
+      simp only
+      exact facts_mutEv hinv t m (by simpa [Props.C05.EvOk, Props.C05.evOkB] using hok) _
+    | none => exact StepFacts.refl _ _ _
   | withLock i => exact facts_of_le (lockEv_le _ i) (lockEv_struct _ i) _ _
   | withUnlock i =>
     have g := ht i rfl
